@@ -46,16 +46,28 @@ def decoder(E, rec, frm, outcomes=('message',), size_of=None, empty='raises', pe
 
 
 def callback(E, rec, on_deliver=None):
+    def deliver(*a):
+        if E.mode == 'symbolic':
+            return on_deliver(*a)
+        try:
+            return on_deliver(*a)
+        except Exception as e:
+            # the clauses of the unit run inside the real code's callback: an error while evaluating them on this run must not be
+            # taken for an exception of the code under test (E.attempt would swallow it and the run would pass vacuously)
+            if type(e).__name__ in ('Vacuous', 'ConcRaised'):
+                raise
+            E.prove('lemma:clauses-evaluable-at-delivery[%s]' % type(e).__name__, False)
+
     def cb(msg):
         for d in rec.decoded:
             if d[3] is msg:
                 rec.delivered.append((msg,) + d[:3])
                 if on_deliver:
-                    on_deliver(msg, *d[:3])
+                    deliver(msg, *d[:3])
                 return
         rec.delivered.append((msg, None, None, None))
         if on_deliver:
-            on_deliver(msg, None, None, None)
+            deliver(msg, None, None, None)
     return cb
 
 
@@ -135,8 +147,12 @@ def gate_twin(kind):
             if kind == 'binary':
                 pdu = [b if b not in (0x7B, 0x7D) else 0x11 for b in pdu]
             fr = concrete_frame(kind, uid if uid not in (0x7B, 0x7D) else 1, pdu, r.randrange(65536))
-            what = r.choice(['ok', 'ok', 'flip', 'flip', 'cut', 'insert'])
-            if what == 'flip':
+            what = r.choice(['ok', 'ok', 'flip', 'flip', 'cut', 'insert'] + (['space', 'space'] if kind == 'ascii' else []))
+            if what == 'space':
+                # white space between two hex pairs of the text (lenient hex decoders skip it; the checksum of the decoded bytes still matches)
+                at = 1 + 2 * r.randrange((len(fr) - 3) // 2)
+                fr[at:at] = [r.choice([0x20, 0x09, 0x0A, 0x0B, 0x0C])] * r.choice([1, 2])
+            elif what == 'flip':
                 i = r.randrange(len(fr))
                 fr[i] ^= 1 << r.randrange(8)
             elif what == 'cut':
